@@ -992,3 +992,23 @@ Proof.
     try (apply H24s; cbn in Hv; exact Hv);
     try (destruct Hv as [Hm Hr]; apply Hint; [lia | assumption | cbn in Hr |- *; lia]).
 Qed.
+
+(* the nearest-neighbour map is monotone in the output position, starts at 0 and (for dst <= src .. any extents) never skips
+   backwards: stated on one axis in Z and position-wise on index lists, for ALL extents *)
+Lemma resize_axis_props n m i j : 0 <= n -> 0 < m -> 0 <= i <= j -> j < m ->
+  0 <= n * i / m <= n * j / m /\ (0 < n -> n * j / m < n) /\ n * 0 / m = 0.
+Proof.
+  intros Hn Hm Hij Hj. split; [|split].
+  - split; [apply Z.div_pos; nia | apply Z.div_le_mono; nia].
+  - intros Hn'. apply Z.div_lt_upper_bound; nia.
+  - now rewrite Z.mul_0_r.
+Qed.
+
+Lemma resize_index_mono s : forall d i j, length s = length d -> pos s -> inb i d -> inb j d ->
+  Forall2 Z.le i j -> Forall2 Z.le (resize_index i s d) (resize_index j s d).
+Proof.
+  induction s as [|n s IH]; intros [|m d] i j Hl Hp Hi Hj Hle; simpl in Hl; try lia.
+  - inversion Hi; inversion Hj; subst. simpl. constructor.
+  - inversion Hi; subst. inversion Hj; subst. inversion Hp; subst. inversion Hle; subst.
+    cbn [resize_index]. constructor; [apply Z.div_le_mono; nia | apply IH; auto; lia].
+Qed.
